@@ -281,7 +281,9 @@ static Boolean DecodeAdrIndirect(tStrComp* pArg, Word Mask) {
         if (FirstFlag) {
             DispAcc &= 0x7fff;
         }
-        if (AdrPart == 0xff) {
+        if (ErrFlag) {
+            /* already reported: do not fall back to [Rn] with a zero offset */
+        } else if (AdrPart == 0xff) {
             WrStrErrorPos(ErrNum_InvAddrMode, pArg);
         } else if (DispAcc == 0) {
             AdrMode = ModMem;
